@@ -69,7 +69,8 @@ ASSUMPTIONS = [
     "a write attempt may raise ValueError/TypeError/RuntimeError (refusal); it must never change a snapshot",
     "fields are observed through Field.val.val (side-effect free); Field.asnumpy() is cross-checked at the end",
     "excluded by construction (defects of numpy itself, re-checked on every run by KNOWN_PROBES when listed in "
-    "known_findings.json): ufunc.at and the .real=/.imag= setters of 0-d arrays write into read-only ndarrays",
+    "known_findings.json): ufunc.at and the .real=/.imag= setters of 0-d arrays (also reached by round(out=) of a "
+    "0-d complex array) write into read-only ndarrays",
     "not generated (deliberate circumvention, like setflags): deprecated in-place metadata setters a.shape= / "
     "a.dtype= / a.strides= and ndarray.resize(refcheck=False) on the source object",
 ]
@@ -210,6 +211,8 @@ def _w_nd(kind, a, pos, v, contig):
         kind = "setall"
     if kind == "real_set" and a.ndim == 0:
         kind = "setall"         # numpy hole (NUMPY_HOLES), excluded by construction
+    if kind == "round_out" and a.ndim == 0 and a.dtype.kind == "c":
+        kind = "negative_out"   # complex round goes through the 0-d .real/.imag setters: same numpy hole
     if kind == "real_set_0d":
         kind = "real_set"
     if kind == "setitem":
@@ -287,7 +290,10 @@ def _w_aa(kind, h, pos, v, contig):
     elif kind == "putmask":
         np.putmask(h, ift.AnyArray(np.ones(a.shape, dtype=bool)), x)
     elif kind == "round_out":
-        np.round(h, 0, out=h)
+        if a.ndim == 0 and a.dtype.kind == "c":
+            np.negative(h, out=h)   # see _w_nd: numpy hole, excluded by construction
+        else:
+            np.round(h, 0, out=h)
     elif kind == "negative_out":
         np.negative(h, out=h) if a.dtype.kind != "b" else np.logical_not(h, out=h)
     else:
@@ -1067,6 +1073,7 @@ def _ctor_variants(tier):
                 out.append((f"{ctor}<{sk}>{dt}", [["new", ctor, [sk, 0], dt, _MV]], "aa" if sk.startswith("anyarray") else "nd"))
     for w in FULL_KINDS:
         out.append((w, [["full", w, 1.5]], None))
+        out.append((w + "_complex", [["full", w, {"re": 0.5, "im": 0.25}]], None))
     for w in RANDOM_KINDS:
         out.append((w, [["random", w, 7, "normal", "f8"]], None))
     base_c = ["new", "Field", ["own", 0], "c16", _MV]
